@@ -10,7 +10,8 @@ checks, na = [], []
 for p in props:
     pid = p["id"]
     path = os.path.join(ROOT, "harness", "props", pid.lower() + ".py")
-    if not os.path.exists(path):
+    READY = set(open(os.path.join(ROOT, "tools", "ready.txt")).read().split())
+    if not os.path.exists(path) or pid not in READY:
         na.append(dict(property_id=pid, reason=NA_REASON.get(pid, "not yet covered: no model/check has been built for this property so far (work in progress, see DESIGN.md section 5)")))
         continue
     m = importlib.import_module("harness.props." + pid.lower())
